@@ -164,6 +164,16 @@ func (r *KeyRing) applyPendingTX() error {
 	return nil
 }
 
+// rollbackPendingTX undoes applyPendingTX when the result could not be stored.
+func (r *KeyRing) rollbackPendingTX() {
+	for i := len(r.txLog) - 1; i >= 0; i-- {
+		err := r.txLog[i].Rollback(r)
+		if err != nil {
+			r.log.WithError(err).Warn("failed to roll back update")
+		}
+	}
+}
+
 func (r *KeyRing) commitTX() {
 	r.txLog = nil
 }
